@@ -394,12 +394,21 @@ func Round3Generic(c *Ctx, id string) {
 		return
 	}
 	switch id {
+	case "C20":
+		c20Round3(c, true)
+	case "C19":
+		rewriterRound3(c)
+	case "C18":
+		rewriterRound3(c)
+		c20Round3(c, true)
 	case "C11":
+		wsRejectedOperationAnswered(c)
 		ctxParamUsed(c, "ctx-param-used", pkgTransport)
 		errorListLenZeroOnly(c, "error-list-len-zero-only", false, pkgTransport, pkgExecutor, pkgGraphql)
 		valueHalfOnErrorEdge(c, "value-half-on-error-edge", pkgTransport)
 		nilFuncCalls(c, "nil-func-call", pkgTransport)
 	case "C16":
+		c16Round3(c)
 		decidedConditions(c, "decided-conditions", modPath("graphql/introspection"))
 	case "C01":
 		wgAddBeforeGo(c, "wg-add-before-go", true, pkgGraphql)
@@ -411,6 +420,9 @@ func Round3Generic(c *Ctx, id string) {
 		c05WG(c)
 		c04HandlerShape(c)
 	case "C03":
+		createReturnsContext(c)
+		mutatorsSeeOperationContext(c)
+		getParamFields(c)
 		independentTests(c)
 		configFieldsRead(c, "config-fields-read", pkgExecutor, pkgHandler, pkgTransport, pkgExtension)
 		rawParamsJSONNames(c)
@@ -419,11 +431,15 @@ func Round3Generic(c *Ctx, id string) {
 		genRound3(c, "field-hooks", "deferred-only")
 		swappedFieldArgs(c, "swapped-field-args", pkgGraphql)
 	case "C14":
+		genRound3(c, "complexity-keys")
 		independentTests(c)
 		staleLoopCarried(c, "stale-loop-carried", pkgComplex)
 		c03FailClosed(c)
 		configFieldsRead(c, "config-fields-read", pkgExecutor, pkgHandler, pkgExtension, pkgComplex)
 	case "C15":
+		createReturnsContext(c)
+		mutatorsSeeOperationContext(c)
+		wsRejectedOperationAnswered(c)
 		independentTests(c)
 		dispatchCtxCarriesOperation(c)
 		rawParamsJSONNames(c)
@@ -437,6 +453,7 @@ func Round3Generic(c *Ctx, id string) {
 		genRound3(c, "input-null", "arg-absent", "args-ctx")
 		c07PoolReset(c) // variables of an earlier request must not reach this one's coercion
 	case "C04":
+		c20Round3(c, false)
 		errorListLenZeroOnly(c, "error-list-len-zero-only", true, pkgTransport, pkgExecutor, pkgGraphql)
 		genRound3(c, "reported-error", "deferred-fields")
 		recoverResultGuarded(c, "recover-result-guarded", pkgTransport, pkgHandler, pkgExecutor)
@@ -444,6 +461,7 @@ func Round3Generic(c *Ctx, id string) {
 		c02ArgErrors(c)
 		c01Invalids(c)
 	case "C13":
+		genRound3(c, "deferred-set-fresh", "hasnext-per-payload")
 		valueReceiverCopiesSync(c, "value-receiver-copies-sync", true, pkgTransport, pkgGraphql)
 		rootOnce(c)
 		genRound3(c, "deferred-fields")
@@ -474,6 +492,7 @@ func Round3Generic(c *Ctx, id string) {
 		slotAndFunctionSameElement(c)
 		idMarshalersQuote(c)
 	case "C09":
+		getParamFields(c)
 		decidedConditions(c, "decided-conditions", pkgTransport, pkgExecutor, pkgHandler)
 		dispatchCtxCarriesOperation(c)
 		trimCutsetLooksLikePrefix(c, "trim-cutset", pkgTransport, pkgExecutor, pkgHandler)
@@ -490,6 +509,7 @@ func Round3Generic(c *Ctx, id string) {
 		uploadFieldsFromPart(c)
 		seekBasePerWhence(c)
 	case "C12":
+		genRound3(c, "hasnext-per-payload")
 		valueReceiverCopiesSync(c, "value-receiver-copies-sync", true, pkgTransport, pkgGraphql)
 		rootOnce(c)
 		genRound3(c, "stream-closed")
